@@ -355,6 +355,35 @@ func checkC20(p *Prog, rp *Report) {
 				fill(mv, moveProblems, "control file renamed")
 			}
 
+			// after a successful Copy / Move the handle lives in the destination: a following Remove acts there
+			if op != "Remove" {
+				var seqProblems []string
+				rm := p.Method("control", typ, "Remove")
+				for _, r0 := range runs {
+					if rm == nil || r0.st.Status != stRet || !r0.errNil {
+						continue
+					}
+					st3 := r0.st
+					nBefore := len(st3.Effects)
+					st3.Status = stRun
+					st3.Frames = nil
+					st3.push(rm, []Val{Ptr{Obj: id}}, nil)
+					for _, r2 := range runFS(m, st3) {
+						if r2.st.Status != stRet {
+							seqProblems = append(seqProblems, "undecided: "+retDesc([]*State{r2.st}))
+							continue
+						}
+						for _, e := range r2.effects[nBefore:] {
+							if strings.HasPrefix(e, "remove(") && !strings.Contains(e, ")=") && !strings.Contains(e, `"/srv/queue/`) {
+								seqProblems = append(seqProblems, fmt.Sprintf("after a successful %s to /srv/queue, Remove deletes %s: it acts on the files left behind in the source directory, not on the handle's new location", op, e))
+							}
+						}
+					}
+					break // one successful path is enough: the handle's state is the same on all of them
+				}
+				fill(hd, uniq(seqProblems), "Remove after a successful "+op+" deletes the files at the new location")
+			}
+
 			// C20-SRC: validation table — any refused name means NO filesystem effect at all
 			var srcProblems []string
 			plainOK := false
